@@ -299,9 +299,8 @@ func (d *decompressor) readMember() error {
 	}
 	skipped := int(d.cr.offset() - mark)
 	need := d.blockSize - skipped
-	if need == 0 {
-		return io.EOF
-	} else if need < 0 {
+	if need <= 0 {
+		// A BSIZE that does not even cover the header that carries it.
 		return ErrCorrupt
 	}
 
